@@ -31,7 +31,7 @@ import (
 )
 
 type c16Scn struct {
-	Kind       string `json:"kind"` // reconnect | takeover | stale-delete-event | admin-delete | broker-closed-predecessor | slow-disconnect-pipeline | reconnect-during-teardown | chain
+	Kind       string `json:"kind"` // reconnect | takeover | stale-delete-event | admin-delete | broker-closed-predecessor | slow-disconnect-pipeline | reconnect-during-teardown | slow-store-put | resubscribe-other-qos | chain
 	OldClean   bool   `json:"old_clean_session"`
 	NewClean   bool   `json:"new_clean_session"`
 	End        string `json:"old_connection_ends_by"` // disconnect | drop | keepalive
@@ -42,7 +42,21 @@ type c16Scn struct {
 	Jitter     bool   `json:"jitter"`
 	// Kind "slow-disconnect-pipeline" only: how the BROKER ends the old connection while its
 	// Disconnect pipeline is held open by the harness: "admin-delete" | "takeover"
+	// Kind "slow-store-put": which put of the session storage is held by the harness while the
+	// client goes on: "connect-store" (the store request made by the CONNECT handling) |
+	// "subscribe-store" (the one of the old connection's first SUBSCRIBE)
+	// Kind "resubscribe-other-qos": how the next connection follows: "reconnect" | "takeover"
 	Via string `json:"old_connection_closed_by_broker_via,omitempty"`
+	// Kind "slow-store-put" only: behind the held put the old connection also UNSUBSCRIBEs its
+	// first filter (UNSUBACK received) before it ends
+	PendingUnsub bool `json:"unsubscribe_acknowledged_while_put_held,omitempty"`
+	// Kind "resubscribe-other-qos" only: the old connection subscribes its filter with QoSFirst and
+	// then the SAME filter again with QoSLast (both SUBACKs received)
+	QoSFirst int `json:"filter_first_subscribed_with_qos,omitempty"`
+	QoSLast  int `json:"then_subscribed_again_with_qos,omitempty"`
+	// Kind "resubscribe-other-qos" only: the second SUBSCRIBE packet also carries a filter the
+	// session does not hold yet (drawn in the repeats)
+	WithNew bool `json:"second_subscribe_also_carries_a_new_filter,omitempty"`
 	// Kind "chain" only: a history of 3 or more connections of the one client id (see c16runChain)
 	Chain []c16Conn `json:"chain,omitempty"`
 }
@@ -101,6 +115,16 @@ func (s c16Scn) sig(failure string) string {
 	}
 	if kind == "slow-disconnect-pipeline" {
 		kind += "(" + s.Via + ")"
+	}
+	if kind == "slow-store-put" {
+		kind += "(held=" + s.Via
+		if s.PendingUnsub {
+			kind += ",unsubscribe-behind-it"
+		}
+		kind += ")"
+	}
+	if kind == "resubscribe-other-qos" {
+		kind += fmt.Sprintf("(%d->%d,%s)", s.QoSFirst, s.QoSLast, s.Via)
 	}
 	return fmt.Sprintf("%s:old=%s,new=%s,%s:%s", kind, c16cp(s.OldClean), c16cp(s.NewClean), s.phase(), failure)
 }
@@ -176,6 +200,27 @@ func c16scenarios() []c16Scn {
 				}
 			}
 		}
+	}
+	// SLOW SESSION STORAGE: a put of the session storage is held by the harness (the store request of
+	// the CONNECT handling, or the one of the first SUBSCRIBE) while the client subscribes (and
+	// unsubscribes) further and ENDS ITS CONNECTION; the put is released only after the teardown has
+	// completed, the store hand-overs are awaited (finished or proven stuck), and the client
+	// reconnects with cleanSession=false (no takeover: the session is rebuilt from the stored copy).
+	for _, via := range []string{"connect-store", "subscribe-store"} {
+		for _, end := range []string{"disconnect", "drop"} {
+			for _, un := range bools {
+				out = append(out, c16Scn{Kind: "slow-store-put", Via: via, End: end, Point: 0, PendingUnsub: un})
+			}
+		}
+	}
+	// RE-SUBSCRIPTION WITH ANOTHER QoS: the old connection subscribes a filter and then the same
+	// filter again with another QoS (0->1, 1->0); reconnect (DISCONNECT / drop) or takeover with
+	// cleanSession=false, then once more a reconnect that is rebuilt from the stored copy.
+	for _, q := range [][2]int{{0, 1}, {1, 0}} {
+		for _, end := range []string{"disconnect", "drop"} {
+			out = append(out, c16Scn{Kind: "resubscribe-other-qos", Via: "reconnect", End: end, Point: 0, QoSFirst: q[0], QoSLast: q[1]})
+		}
+		out = append(out, c16Scn{Kind: "resubscribe-other-qos", Via: "takeover", End: "drop", Point: 2, QoSFirst: q[0], QoSLast: q[1]})
 	}
 	return out
 }
@@ -295,49 +340,6 @@ func c16chainShape(ch []c16Conn, k int) string {
 }
 
 
-// c16ReadLoopsParked waits until every goroutine that is inside (*Client).readLoop is blocked in
-// a socket read (goroutine state "IO wait" under packets.ReadPacket) or no such goroutine is
-// left; a read loop in any other state is on its way to one of the two.  false = watchdog.
-func c16ReadLoopsParked() bool {
-	deadline := time.Now().Add(c15rigWatchdog)
-	for i := 0; ; i++ {
-		buf := make([]byte, 1<<20)
-		for {
-			n := runtime.Stack(buf, true)
-			if n < len(buf) {
-				buf = buf[:n]
-				break
-			}
-			buf = make([]byte, 2*len(buf))
-		}
-		moving := 0
-		for _, g := range strings.Split(string(buf), "\n\n") {
-			if !strings.Contains(g, "mqttproxy.(*Client).readLoop") {
-				continue
-			}
-			head := g
-			if k := strings.IndexByte(g, '\n'); k >= 0 {
-				head = g[:k]
-			}
-			if !(strings.Contains(head, "[IO wait") && strings.Contains(g, "packets.ReadPacket")) {
-				moving++
-			}
-		}
-		if moving == 0 {
-			return true
-		}
-		if time.Now().After(deadline) {
-			return false
-		}
-		if i < 20 {
-			runtime.Gosched()
-			time.Sleep(200 * time.Microsecond)
-		} else {
-			time.Sleep(2 * time.Millisecond)
-		}
-	}
-}
-
 func TestVerif_C16_Sessions(t *testing.T) {
 	c15rigSkipForReplay(t)
 	r := kit.Start(t, "C16")
@@ -348,7 +350,7 @@ func TestVerif_C16_Sessions(t *testing.T) {
 	scns := c16scenarios()
 	nPair := len(scns)
 	scns = append(scns, c16chains()...)
-	r.Rule(fmt.Sprintf("%d scripted schedules for one client id. (a) %d two-connection schedules: {cleanSession old} x {cleanSession new} x {new filter = old filter or not} x {plain reconnect after DISCONNECT / after a silent drop; takeover with the old connection's end (FIN through the relay, or DISCONNECT packet) placed after the new CONNACK / after the new SUBSCRIBE / after the first delivery / never; takeover with the old connection ended by the broker's keep-alive deadline; admin delete; session-delete watch event delayed past the reconnect; predecessor ended BY THE BROKER: its session is deleted through the admin endpoint (delete event delivered and processed, connection closed and deregistered, socket still open so that its read loop lingers), then the new CONNECT (not a takeover for the broker) and the old socket's end (FIN or DISCONNECT packet) placed after the new CONNACK / SUBSCRIBE / first delivery; SLOW DISCONNECT PIPELINE: a broker whose Connect and Disconnect pipelines are handlers the harness can hold open; the old connection is ended BY THE BROKER (admin delete of its session: delete event handed to the watch loop / takeover by the new CONNECT) and the Disconnect pipeline that Client.close() runs is held open while the same client id connects (admin delete: the new CONNECT is sent and its Connect pipeline has been entered while the old Disconnect pipeline is still running; if the broker's registry lock is free meanwhile the CONNACK and the SUBSCRIBE are completed before the release, otherwise the CONNECT is serialised behind the pipeline) and subscribes (takeover: SUBSCRIBE and first delivery while the superseded connection's Disconnect pipeline runs), then the pipeline is released, the broker's handling finishes, the old socket ends (FIN or DISCONNECT packet, drawn) and the survivor is judged as in every schedule; RECONNECT WHILE THE OLD CONNECTION'S OWN TEARDOWN IS IN PROGRESS: on the same gated broker the old connection ends by itself (DISCONNECT packet or EOF through the relay), the deferred teardown of its read loop runs up to the Disconnect pipeline that Client.close() runs and is held there by the harness (the stage of the teardown is observed from the books: session gone from the session map, old filter gone from the topic manager, connection still registered), a delete event that teardown issued (cleanSession=true) is delivered while it is held, the same client id sends its CONNECT and gets its CONNACK while the teardown is still held, and the pipeline is released (the teardown then completes: broker closes its side) after the new CONNACK / after the new SUBSCRIBE / after the first delivery, {cleanSession old} x {cleanSession new} x {DISCONNECT, drop} x {3 release points}, new filter different from the old one in the first pass (drawn 1/3 equal in the repeats), survivor judged as in every schedule}, a random QoS for the probe on the old filter; after the old teardown has completed a fresh message per filter is published. (b) %d longer session histories (chains): every sequence of three connections {cleanSession}^3 x {ends by DISCONNECT, ends by silent drop, is taken over while open}^2, each connection subscribing a filter of its own; the end of a superseded connection is placed at a drawn point (after the successor's CONNACK / SUBSCRIBE / first judgement / never), and for a taken-over first connection additionally, enumerated, only after the successor's own end (before the next CONNECT) and after the successor's end plus the next connection's SUBSCRIBE; after such a late teardown the stored session of the latest cleanSession=false connection must still hold its subscriptions; additionally, where the first two connections are both cleanSession=false, every such history with the middle connection also UNSUBSCRIBING the first connection's filter after subscribing its own (after a DISCONNECT/drop of the first connection the middle one's session is rebuilt from the stored copy, is changed by an addition and a removal, and is rebuilt from the stored copy again by the third connection, whose expected set differs from what the first connection stored); in the repeats a fourth connection with drawn parameters is inserted at a drawn position in half of the cases and every later connection unsubscribes the oldest inherited filter with probability 1/3; EVERY connection of a chain is judged (books + one fresh message per filter of the history, PINGRESP barrier) against a model of the property sentence: cleanSession=true discards everything earlier, cleanSession=false keeps what the previous session held and what the connection subscribed itself and does not get back what a previous cleanSession=false connection unsubscribed, filters held by a cleanSession=true predecessor of a cleanSession=false connection are left open. All repeated (quick 3x, thorough 200x) with seeded jitter between the steps; distinct = (schedule, symptoms)", len(scns), nPair, len(scns)-nPair))
+	r.Rule(fmt.Sprintf("%d scripted schedules for one client id. (a) %d two-connection schedules: {cleanSession old} x {cleanSession new} x {new filter = old filter or not} x {plain reconnect after DISCONNECT / after a silent drop; takeover with the old connection's end (FIN through the relay, or DISCONNECT packet) placed after the new CONNACK / after the new SUBSCRIBE / after the first delivery / never; takeover with the old connection ended by the broker's keep-alive deadline; admin delete; session-delete watch event delayed past the reconnect; predecessor ended BY THE BROKER: its session is deleted through the admin endpoint (delete event delivered and processed, connection closed and deregistered, socket still open so that its read loop lingers), then the new CONNECT (not a takeover for the broker) and the old socket's end (FIN or DISCONNECT packet) placed after the new CONNACK / SUBSCRIBE / first delivery; SLOW DISCONNECT PIPELINE: a broker whose Connect and Disconnect pipelines are handlers the harness can hold open; the old connection is ended BY THE BROKER (admin delete of its session: delete event handed to the watch loop / takeover by the new CONNECT) and the Disconnect pipeline that Client.close() runs is held open while the same client id connects (admin delete: the new CONNECT is sent and its Connect pipeline has been entered while the old Disconnect pipeline is still running; if the broker's registry lock is free meanwhile the CONNACK and the SUBSCRIBE are completed before the release, otherwise the CONNECT is serialised behind the pipeline) and subscribes (takeover: SUBSCRIBE and first delivery while the superseded connection's Disconnect pipeline runs), then the pipeline is released, the broker's handling finishes, the old socket ends (FIN or DISCONNECT packet, drawn) and the survivor is judged as in every schedule; RECONNECT WHILE THE OLD CONNECTION'S OWN TEARDOWN IS IN PROGRESS: on the same gated broker the old connection ends by itself (DISCONNECT packet or EOF through the relay), the deferred teardown of its read loop runs up to the Disconnect pipeline that Client.close() runs and is held there by the harness (the stage of the teardown is observed from the books: session gone from the session map, old filter gone from the topic manager, connection still registered), a delete event that teardown issued (cleanSession=true) is delivered while it is held, the same client id sends its CONNECT and gets its CONNACK while the teardown is still held, and the pipeline is released (the teardown then completes: broker closes its side) after the new CONNACK / after the new SUBSCRIBE / after the first delivery, {cleanSession old} x {cleanSession new} x {DISCONNECT, drop} x {3 release points}, new filter different from the old one in the first pass (drawn 1/3 equal in the repeats), survivor judged as in every schedule; SLOW SESSION STORAGE AT THE END OF THE CONNECTION: the rig's storage wrapper lets the harness hold one put of the session storage (the one of the store request made by the CONNECT handling / the one of the first SUBSCRIBE; the session manager's sequential store loop is inside it) while the cleanSession=false client subscribes a further filter (SUBACK received), optionally unsubscribes its first one (UNSUBACK received), is still served (QoS1 delivery observed) and ends its connection by DISCONNECT or silent drop; the teardown is observed complete while the put is STILL held (so none of the later store requests can have been taken), the put is released, every store hand-over is awaited (finished, or proven stuck for ever) and the client reconnects with cleanSession=false (not a takeover: the session is rebuilt from the stored copy) and is judged: every filter whose SUBACK it received is routed and delivered, the filter whose UNSUBACK it received is neither, {held put} x {DISCONNECT, drop} x {with/without the UNSUBSCRIBE}; RE-SUBSCRIPTION WITH ANOTHER QoS: the cleanSession=false client subscribes a filter with QoS a and then the same filter again with QoS b (0->1 and 1->0, both SUBACKs received; in the repeats the second SUBSCRIBE packet also carries a new filter in half of the cases, before or after the repeated one), the live subscription is observed to have QoS b (a QoS-b message delivered), then reconnect after DISCONNECT / after a drop, or takeover (old connection's end after the new CONNACK / SUBSCRIBE / first judgement), always cleanSession=false, judged, and then once more a DISCONNECT/drop and a reconnect rebuilt from the stored copy, judged: the filter is routed with the QoS of the LAST acknowledged SUBSCRIBE and a message of that QoS is delivered (a QoS1 message on a subscription whose last QoS is 0 is only counted)}, a random QoS for the probe on the old filter; after the old teardown has completed a fresh message per filter is published. (b) %d longer session histories (chains): every sequence of three connections {cleanSession}^3 x {ends by DISCONNECT, ends by silent drop, is taken over while open}^2, each connection subscribing a filter of its own; the end of a superseded connection is placed at a drawn point (after the successor's CONNACK / SUBSCRIBE / first judgement / never), and for a taken-over first connection additionally, enumerated, only after the successor's own end (before the next CONNECT) and after the successor's end plus the next connection's SUBSCRIBE; after such a late teardown the stored session of the latest cleanSession=false connection must still hold its subscriptions; additionally, where the first two connections are both cleanSession=false, every such history with the middle connection also UNSUBSCRIBING the first connection's filter after subscribing its own (after a DISCONNECT/drop of the first connection the middle one's session is rebuilt from the stored copy, is changed by an addition and a removal, and is rebuilt from the stored copy again by the third connection, whose expected set differs from what the first connection stored); in the repeats a fourth connection with drawn parameters is inserted at a drawn position in half of the cases and every later connection unsubscribes the oldest inherited filter with probability 1/3; EVERY connection of a chain is judged (books + one fresh message per filter of the history, PINGRESP barrier) against a model of the property sentence: cleanSession=true discards everything earlier, cleanSession=false keeps what the previous session held and what the connection subscribed itself and does not get back what a previous cleanSession=false connection unsubscribed, filters held by a cleanSession=true predecessor of a cleanSession=false connection are left open. All repeated (quick 3x, thorough 200x) with seeded jitter between the steps; distinct = (schedule, symptoms)", len(scns), nPair, len(scns)-nPair))
 	r.Assume("one client id, keepalive 0 except in the keep-alive schedules, no will; delete-watch events are delivered promptly (right after the teardown that caused them, before the next step) except in the stale-delete-event schedules; old cleanSession=true followed by new cleanSession=false: whether the old subscription comes back is left open (counted, not judged); new cleanSession=true while the superseded connection has not been torn down yet: delivery on the old filter is counted, not judged; predecessor ended by an admin delete: whether a cleanSession=false successor gets the deleted session's filter is left open (counted), the same holds after the admin delete in the slow-Disconnect-pipeline schedules; a pipeline of the harness is held only between two observed steps and is always released (also when the case ends early); while the Disconnect pipeline is held the harness does not call anything that needs the broker's registry lock (it only probes it with TryRLock to decide whether the CONNACK can be awaited before the release; not a verdict); in the reconnect-during-teardown schedules the registry is read while the pipeline is held only through TryRLock (a teardown that held the registry lock there would make the case skipped and counted, the run inconclusive, never a violation), and the stage at which the teardown is held is whatever stage the broker runs its Disconnect pipeline at (observed and Required, not forced: other stages of a teardown cannot be held with the means the broker offers); the broker's other own closes are not generated (the keep-alive deadline ends the read loop itself so nothing lingers; a failed socket write and the watcher re-sync leave the connection registered, which is the takeover schedule); chains: a connection ends only after every Session.store() hand-over has finished or has been PROVEN unable to finish ever (a goroutine created by Session.store still parked in its channel send after a barrier value, sent later through the store loop's channel, has been taken: blocked senders are served FIFO, so it waits on a channel the store loop does not read; no clock involved) - in that case the stored copy is not judged any more, the history simply goes on and the next cleanSession=false reconnect is judged as the property says (signature suffix session-never-persisted-again); an unsubscribed filter must stay silent at later connections only once every earlier connection has been torn down, in the unsubscribing connection itself it is only counted; a superseded connection whose teardown point is 'never' is torn down only after the history has been judged; a discarded filter must stay silent only once every earlier connection has been torn down")
 	reps := r.N(3, 200)
 	n := len(scns) * reps
@@ -383,9 +385,34 @@ func TestVerif_C16_Sessions(t *testing.T) {
 			s.SameFilter = s.Jitter && rng.Intn(3) == 0
 			s.Admin = rng.Intn(4) == 0
 		}
+		if s.Kind == "slow-store-put" || s.Kind == "resubscribe-other-qos" {
+			if s.Kind == "resubscribe-other-qos" && s.Jitter {
+				s.WithNew = rng.Intn(2) == 0
+				if s.Via == "takeover" {
+					s.Point = 1 + rng.Intn(3)
+					s.End = []string{"disconnect", "drop"}[rng.Intn(2)]
+				}
+			}
+			r.Case(i, s)
+			c16runStored(r, rng, s, i < len(scns))
+			continue
+		}
 		r.Case(i, s)
 		c16run(r, rng, s, i < len(scns))
 	}
+	// slow session storage: a put held while the connection ends, hand-overs waiting behind it
+	r.Require("slow_store_put:connection_torn_down_while_the_put_was_held_and_acknowledged_changes_not_yet_handed_to_storage", 1)
+	r.Require("slow_store_put:held=connect-store:reconnect_rebuilt_from_stored_copy_judged", 1)
+	r.Require("slow_store_put:held=subscribe-store:reconnect_rebuilt_from_stored_copy_judged", 1)
+	r.Require("slow_store_put:subscription_acknowledged_while_put_held_restored_after_reconnect", 1)
+	r.Require("slow_store_put:filter_unsubscribed_while_put_held_silent_after_reconnect", 1)
+	// re-subscription of a held filter with another QoS
+	r.Require("resubscribe_other_qos:0->1:live_subscription_delivered_qos1_before_the_end", 1)
+	r.Require("resubscribe_other_qos:0->1:restored_with_last_qos_and_qos1_delivered_after_reconnect", 1)
+	r.Require("resubscribe_other_qos:1->0:restored_with_last_qos_after_reconnect", 1)
+	r.Require("resubscribe_other_qos:0->1:restored_with_last_qos_and_qos1_delivered_after_takeover", 1)
+	r.Require("resubscribe_other_qos:1->0:restored_with_last_qos_after_takeover", 1)
+	r.Require("resubscribe_other_qos:restored_with_last_qos_when_rebuilt_from_stored_copy_once_more", 1)
 	r.Require("old_teardown_observed_complete", 1)
 	r.Require("sanity_delivery_to_old_connection", 1)
 	r.Require("survivor_received_on_new_filter", 1)
@@ -703,7 +730,7 @@ func c16run(r *kit.Run, rng *rand.Rand, s c16Scn, first bool) {
 		// the plain-reconnect schedule, not this one.  So the state is observed, not assumed:
 		// wait until every read loop is parked in a socket read or gone, then look at the books
 		// (a full teardown removes the session from the session map, a lingering one has not).
-		if !c16ReadLoopsParked() {
+		if !c15rigReadLoopsParked() {
 			inc("watchdog: read loops neither parked in a read nor gone")
 			return
 		}
@@ -1327,6 +1354,603 @@ func c16run(r *kit.Run, rng *rand.Rand, s c16Scn, first bool) {
 		}
 	}
 	if first && len(symptoms) == 0 && s.Kind == "takeover" && s.Point == 2 && !s.OldClean && !s.NewClean && !s.SameFilter {
+		r.Sample(map[string]interface{}{"scenario": s, "steps": steps})
+	}
+}
+
+// ---------------------------------------------------------------------------- stored copy
+//
+// c16runStored executes the two schedule kinds whose subject is the COPY of the session that a
+// later cleanSession=false connection is given back:
+//
+//   - "slow-store-put": the storage is slow at the moment.  The harness holds one put of the session
+//     storage (rig storage wrapper, putHook) - the store loop of the session manager is inside it -
+//     while the client makes further acknowledged changes to its session (SUBSCRIBE with SUBACK,
+//     optionally UNSUBSCRIBE with UNSUBACK) and ends its connection; the teardown is observed
+//     complete while the put is STILL held (the sequential store loop cannot have taken anything
+//     meanwhile: logical, no clock), then the put is released, the hand-overs are awaited (finished
+//     or proven stuck for ever) and the client reconnects with cleanSession=false.
+//   - "resubscribe-other-qos": the client subscribes a filter it already holds again with another
+//     QoS; after the reconnect / takeover the subscription it gets back must be the one it had.
+//
+// Oracle (property sentence): a subscription whose SUBACK the client has received belongs to its
+// session; the cleanSession=false reconnect gets it back (routed with the QoS of the last
+// SUBSCRIBE, a message of that QoS delivered); a filter whose UNSUBACK it has received does not
+// come back.  Nothing is demanded about the stored copy at any particular moment.
+func c16runStored(r *kit.Run, rng *rand.Rand, s c16Scn, first bool) {
+	const cid = "dev"
+	type exp struct {
+		Filter string `json:"filter"`
+		Topic  string `json:"topic"`
+		Held   bool   `json:"session_holds_it"` // false: unsubscribed (UNSUBACK received)
+		QoS    int    `json:"qos_of_last_acknowledged_subscribe"`
+		By     string `json:"by"`
+		Resub  bool   `json:"subscribed_twice_with_different_qos,omitempty"`
+		own    bool
+	}
+	rb, err := c15rigNewBroker(c15rigBrokerOpts{})
+	if err != nil {
+		r.Inconclusive("broker did not start: " + err.Error())
+		return
+	}
+	relay, err := c15rigNewRelay(rb.addr)
+	if err != nil {
+		rb.close()
+		r.Inconclusive("relay did not start: " + err.Error())
+		return
+	}
+	st := c16newStores(rb)
+	gate := c16newGate()
+	rb.store.putHook.Store(func(string) { gate.Handle(nil) })
+	var conns []*c15rigClient
+	var links []*c15rigLink
+	var down []bool
+	var model []*exp
+	stuckSeen := false
+	steps := []string{}
+	step := func(f string, x ...interface{}) { steps = append(steps, fmt.Sprintf(f, x...)) }
+	jit := func() {
+		if s.Jitter {
+			time.Sleep(time.Duration(rng.Intn(4000)) * time.Microsecond)
+		}
+	}
+	inconclusive := false
+	inc := func(why string) {
+		if !inconclusive {
+			r.Inconclusive(why + " in " + s.sig("-"))
+		}
+		inconclusive = true
+	}
+	type sympt struct {
+		Family  string                 `json:"family"`
+		Symptom string                 `json:"symptom"`
+		Extra   map[string]interface{} `json:"detail,omitempty"`
+	}
+	var symptoms []sympt
+	bad := func(family, symptom string, extra map[string]interface{}) {
+		symptoms = append(symptoms, sympt{family, symptom, extra})
+	}
+	extraDetail := map[string]interface{}{}
+	emit := func(k int, when string) {
+		seen := map[string]bool{}
+		for _, sy := range symptoms {
+			if seen[sy.Family] {
+				continue
+			}
+			seen[sy.Family] = true
+			d := map[string]interface{}{"scenario": s, "judged_connection": k, "judged": when, "steps": steps, "symptoms": symptoms, "session_model(from the acknowledged SUBSCRIBEs/UNSUBSCRIBEs)": model}
+			for key, v := range extraDetail {
+				d[key] = v
+			}
+			if len(st.stuck) > 0 {
+				d["store_hand_overs_proven_stuck_for_ever(goroutine states)"] = st.stuck
+			}
+			if k >= 0 && k < len(conns) {
+				d["judged_connection_log"] = conns[k].events()
+			}
+			fam := sy.Family
+			if strings.HasPrefix(fam, "http-publish-") {
+				r.Violation("any-schedule:"+fam, d)
+				continue
+			}
+			if stuckSeen && (fam == "previous-subscription-not-restored" || fam == "unsubscribed-filter-back-after-reconnect" || fam == "previous-subscription-restored-with-another-qos") {
+				fam += ":session-never-persisted-again(store-hand-over-stuck-for-ever)"
+			}
+			r.Violation(s.sig(fam), d)
+		}
+	}
+	defer func() {
+		gate.release() // whatever happened: the store loop does not stay parked in the harness
+		syms := []string{}
+		for _, sy := range symptoms {
+			syms = append(syms, sy.Family+"/"+sy.Symptom)
+		}
+		r.Cover(fmt.Sprintf("schedule:%s/at=%s/%s/with-new=%v/inconclusive=%v/symptoms=%v", s.sig(""), c16pointName[s.Point], s.End, s.WithNew, inconclusive, syms))
+		if len(symptoms) > 0 {
+			r.Count("schedules_with_symptoms", 1)
+		} else if !inconclusive {
+			r.Count("schedules_clean", 1)
+		}
+		for k := range conns {
+			if !down[k] && k != len(conns)-1 {
+				links[k].cutBrokerSide()
+				links[k].brokerClosed()
+			}
+		}
+		if k := len(conns) - 1; k >= 0 && !down[k] {
+			conns[k].shutdown()
+		}
+		for k := range conns {
+			conns[k].close()
+		}
+		rb.flushDeletes()
+		st.settle()
+		relay.close()
+		rb.close()
+	}()
+	settle := func() bool {
+		nStuck, ok := st.settle()
+		if !ok {
+			inc("watchdog: session store")
+			return false
+		}
+		if nStuck > 0 {
+			stuckSeen = true
+			r.Count("store_hand_over_proven_stuck_for_ever", int64(nStuck))
+			step("%d Session.store() hand-over(s) can never complete (parked in a send on a channel the store loop does not read: %v); the history goes on", nStuck, st.stuck)
+		}
+		return true
+	}
+	dial := func(clean bool) (int, bool) {
+		c, l, err := relay.dial(cid)
+		if err != nil {
+			inc("dial: " + err.Error())
+			return -1, false
+		}
+		conns, links, down = append(conns, c), append(links, l), append(down, false)
+		k := len(conns) - 1
+		if rc, cst := c.connect(clean, 0); cst == "watchdog" {
+			inc("watchdog: CONNACK")
+			return k, false
+		} else if cst != "ok" || rc != 0 {
+			bad("connection-refused", "connect", map[string]interface{}{"state": cst, "rc": rc})
+			emit(k, "CONNECT")
+			return k, false
+		}
+		return k, true
+	}
+	sub := func(k int, filters []string, qoss []byte) bool {
+		switch sst := conns[k].subscribe(filters, qoss); sst {
+		case "ok":
+			step("#%d: SUBSCRIBE %v qos %v, SUBACK received", k, filters, qoss)
+			return true
+		case "watchdog":
+			inc("watchdog: SUBACK")
+		default:
+			bad("current-connection-deregistered-or-disconnected", "connection-closed-by-broker", map[string]interface{}{"at": "SUBSCRIBE", "state": sst})
+			emit(k, "SUBSCRIBE")
+		}
+		return false
+	}
+	endConn := func(k int, how string) bool {
+		jit()
+		switch how {
+		case "disconnect":
+			conns[k].sendDisconnect()
+			step("#%d: DISCONNECT packet reaches the broker", k)
+		default:
+			conns[k].close()
+			links[k].cutBrokerSide()
+			step("#%d: client vanished, broker's read on the connection sees EOF", k)
+		}
+		if !links[k].brokerClosed() {
+			inc("watchdog: connection teardown")
+			return false
+		}
+		down[k] = true
+		r.Count("old_teardown_observed_complete", 1)
+		step("#%d: teardown complete (broker closed its side)", k)
+		if _, ok := rb.flushDeletes(); !ok {
+			inc("watchdog: delete-watch flush")
+			return false
+		}
+		return true
+	}
+	seq := 0
+	inject := func(k int, tp string, qos int) (string, bool) {
+		seq++
+		pl := fmt.Sprintf("c16stored.%d", seq)
+		if code := rb.httpPublish(tp, qos, pl, true); code != 200 {
+			bad(fmt.Sprintf("http-publish-rejected-%d", code), "", nil)
+			emit(k, "publish")
+			return pl, false
+		}
+		if !rb.publishQuiesced() {
+			inc("watchdog: publish goroutine")
+			return pl, false
+		}
+		return pl, true
+	}
+	famOf := func(e *exp) string {
+		if e.own {
+			return "own-subscription-lost"
+		}
+		return "previous-subscription-not-restored"
+	}
+	// judge connection k (the current one) against the model.  false = the history ends here.
+	judge := func(k int, when string) bool {
+		c, l := conns[k], links[k]
+		r.Eval(1)
+		reg, sess := rb.registered(cid)
+		switch {
+		case reg == nil:
+			bad("current-connection-deregistered-or-disconnected", "not-registered", nil)
+		case reg.conn.RemoteAddr().String() != l.brokerSideLocalAddr():
+			bad("current-connection-deregistered-or-disconnected", "registered-connection-is-not-the-current-one", nil)
+		}
+		if reg != nil {
+			switch inMap := rb.sessionInMap(cid); {
+			case inMap == nil:
+				bad("current-session-removed", "session-missing-from-session-map", nil)
+			case inMap != sess:
+				bad("current-session-removed", "session-map-holds-a-different-session", nil)
+			}
+		}
+		allEarlierDown := true
+		for i := 0; i < k; i++ {
+			allEarlierDown = allEarlierDown && down[i]
+		}
+		for _, e := range model {
+			ok, q := rb.routes(e.Topic, cid)
+			switch {
+			case e.Held && !ok:
+				bad(famOf(e), "unrouted", map[string]interface{}{"filter": e.Filter, "by": e.By})
+			case e.Held && int(q) != e.QoS:
+				bad("previous-subscription-restored-with-another-qos", "routed-with-another-qos", map[string]interface{}{"filter": e.Filter, "by": e.By, "qos_of_last_acknowledged_subscribe": e.QoS, "routed_with_qos": int(q)})
+			case !e.Held && ok && allEarlierDown:
+				bad("unsubscribed-filter-back-after-reconnect", "routed", map[string]interface{}{"filter": e.Filter, "by": e.By})
+			}
+		}
+		if c.sawEOF() {
+			bad("current-connection-deregistered-or-disconnected", "connection-closed-by-broker", nil)
+		} else {
+			pls := make([]string, len(model))
+			hi := make([]string, len(model)) // QoS1 probe on a subscription whose last QoS is 0: counted only
+			for j, e := range model {
+				q := e.QoS
+				if !e.Held {
+					q = rng.Intn(2)
+				}
+				pl, ok := inject(k, e.Topic, q)
+				if !ok {
+					return false
+				}
+				pls[j] = pl
+				if e.Held && e.Resub && e.QoS == 0 {
+					if hi[j], ok = inject(k, e.Topic, 1); !ok {
+						return false
+					}
+				}
+			}
+			switch pst := c.ping(); pst {
+			case "ok":
+				for j, e := range model {
+					cnt, _ := c.copies(pls[j])
+					got := cnt > 0
+					switch {
+					case e.Held && !got:
+						fam := famOf(e)
+						if okr, _ := rb.routes(e.Topic, cid); okr && e.Resub {
+							// the filter is routed but a message with the QoS of the last SUBSCRIBE does not arrive
+							fam = "previous-subscription-restored-with-another-qos"
+						}
+						bad(fam, "delivery-missed", map[string]interface{}{"filter": e.Filter, "by": e.By, "payload": pls[j], "qos": e.QoS})
+					case !e.Held && got && allEarlierDown:
+						bad("unsubscribed-filter-back-after-reconnect", "delivered", map[string]interface{}{"filter": e.Filter, "by": e.By, "payload": pls[j]})
+					}
+					if hi[j] != "" {
+						if cnt, _ := c.copies(hi[j]); cnt > 0 {
+							r.Count("resubscribe_other_qos:qos1_message_delivered_on_subscription_whose_last_qos_is_0(not judged)", 1)
+						} else {
+							r.Count("resubscribe_other_qos:qos1_message_not_delivered_on_subscription_whose_last_qos_is_0", 1)
+						}
+					}
+				}
+			case "watchdog":
+				inc("watchdog: PINGRESP")
+				return false
+			default:
+				bad("current-connection-deregistered-or-disconnected", "connection-closed-by-broker", map[string]interface{}{"at": "PINGREQ barrier", "state": pst})
+			}
+		}
+		if len(symptoms) > 0 {
+			emit(k, when)
+			return false
+		}
+		step("#%d: judged (%s): books and deliveries as the property demands", k, when)
+		return true
+	}
+	// rebuilt: the next CONNECT finds no live session and a stored copy
+	rebuilt := func() bool {
+		if rb.sessionInMap(cid) != nil {
+			return false
+		}
+		tp, stored := rb.persistedTopics(cid)
+		extraDetail["stored_copy_before_the_latest_connect"] = tp
+		return stored
+	}
+	own := 0
+	subOwn := func(k int) bool {
+		own++
+		e := &exp{Filter: fmt.Sprintf("s/own%d", own), Topic: fmt.Sprintf("s/own%d", own), Held: true, QoS: 1, By: fmt.Sprintf("connection #%d", k), own: true}
+		if !sub(k, []string{e.Filter}, []byte{1}) {
+			return false
+		}
+		model = append(model, e)
+		return true
+	}
+	disown := func() {
+		for _, e := range model {
+			e.own = false
+		}
+	}
+
+	if s.Kind == "slow-store-put" {
+		fa := &exp{Filter: "s/a/+", Topic: "s/a/1", Held: true, QoS: 1, By: "connection #0, first SUBSCRIBE"}
+		fb := &exp{Filter: "s/b/+", Topic: "s/b/1", Held: true, QoS: 1, By: "connection #0, SUBSCRIBE acknowledged while a storage put was held"}
+		if s.Via == "connect-store" {
+			gate.arm()
+		}
+		a, ok := dial(false)
+		if !ok {
+			return
+		}
+		step("#0: CONNECT clean=false accepted")
+		if s.Via == "connect-store" {
+			if !gate.wait(func(en, ex int) bool { return en >= 1 }) {
+				inc("watchdog: the CONNECT's session store did not reach the storage")
+				return
+			}
+			step("storage: the put of the store request made by the CONNECT handling is held (slow storage)")
+		} else {
+			if !settle() {
+				return
+			}
+			gate.arm()
+		}
+		jit()
+		if !sub(a, []string{fa.Filter}, []byte{1}) {
+			return
+		}
+		model = append(model, fa)
+		if s.Via == "subscribe-store" {
+			if !gate.wait(func(en, ex int) bool { return en >= 1 }) {
+				inc("watchdog: the SUBSCRIBE's session store did not reach the storage")
+				return
+			}
+			step("storage: the put of the store request made by the first SUBSCRIBE is held (slow storage)")
+		}
+		jit()
+		if !sub(a, []string{fb.Filter}, []byte{1}) {
+			return
+		}
+		model = append(model, fb)
+		if s.PendingUnsub {
+			jit()
+			if ust := c16unsubscribe(conns[a], []string{fa.Filter}); ust == "watchdog" {
+				inc("watchdog: UNSUBACK")
+				return
+			} else if ust != "ok" {
+				bad("current-connection-deregistered-or-disconnected", "connection-closed-by-broker", map[string]interface{}{"at": "UNSUBSCRIBE", "state": ust})
+				emit(a, "UNSUBSCRIBE")
+				return
+			}
+			fa.Held, fa.By = false, "connection #0, UNSUBSCRIBE acknowledged while a storage put was held"
+			step("#0: UNSUBSCRIBE %s, UNSUBACK received", fa.Filter)
+		}
+		// the live connection is served while the storage is slow (sanity; PUBACK processed: second barrier)
+		if pl, ok := inject(a, fb.Topic, 1); !ok {
+			return
+		} else if pst := conns[a].ping(); pst != "ok" {
+			inc("old connection: PINGRESP " + pst)
+			return
+		} else if cnt, _ := conns[a].copies(pl); cnt == 0 {
+			r.Count("slow_store_put:live_delivery_missed_while_put_held(schedule not established, not judged)", 1)
+			return
+		}
+		if pst := conns[a].ping(); pst != "ok" {
+			inc("old connection: PINGRESP " + pst)
+			return
+		}
+		r.Count("sanity_delivery_to_old_connection", 1)
+		waiting := st.live()
+		extraDetail["store_hand_over_goroutines_when_the_connection_ended"] = fmt.Sprintf("%v", waiting)
+		if !endConn(a, s.End) {
+			return
+		}
+		held := false
+		gate.wait(func(en, ex int) bool { held = en == 1 && ex == 0; return true })
+		if !held {
+			r.Count("slow_store_put:put_not_held_any_more_at_connection_end(schedule not established, not judged)", 1)
+			return
+		}
+		// the store loop is sequential and has been inside the held put since before the later
+		// SUBSCRIBE/UNSUBSCRIBE were sent: nothing they handed over can have been taken yet
+		r.Count("slow_store_put:connection_torn_down_while_the_put_was_held_and_acknowledged_changes_not_yet_handed_to_storage", 1)
+		r.Count("slow_store_put:store_hand_over_goroutines_alive_at_connection_end", int64(len(waiting)))
+		jit()
+		gate.release()
+		step("storage: the held put is released (teardown of #0 had completed before)")
+		if !settle() {
+			return
+		}
+		step("storage: every store hand-over has finished or is proven stuck for ever")
+		jit()
+		wasRebuilt := rebuilt()
+		b, ok := dial(false)
+		if !ok {
+			return
+		}
+		step("#1: CONNECT clean=false accepted (no live session, stored copy present: %v)", wasRebuilt)
+		if !subOwn(b) {
+			return
+		}
+		if !judge(b, "reconnect with cleanSession=false after the slow put was released and the store hand-overs were awaited") {
+			return
+		}
+		if wasRebuilt {
+			r.Count("slow_store_put:held="+s.Via+":reconnect_rebuilt_from_stored_copy_judged", 1)
+			r.Count("slow_store_put:subscription_acknowledged_while_put_held_restored_after_reconnect", 1)
+			r.Count("previous_subscription_restored", 1)
+			if s.PendingUnsub {
+				r.Count("slow_store_put:filter_unsubscribed_while_put_held_silent_after_reconnect", 1)
+			}
+		}
+		if first && s.Via == "connect-store" && s.End == "drop" && s.PendingUnsub {
+			r.Sample(map[string]interface{}{"scenario": s, "steps": steps})
+		}
+		return
+	}
+
+	// ---- resubscribe-other-qos
+	dir := fmt.Sprintf("%d->%d", s.QoSFirst, s.QoSLast)
+	fq := &exp{Filter: "s/q/+", Topic: "s/q/1", Held: true, QoS: s.QoSLast, Resub: true, By: fmt.Sprintf("connection #0: SUBSCRIBE qos %d, then SUBSCRIBE qos %d (both acknowledged)", s.QoSFirst, s.QoSLast)}
+	a, ok := dial(false)
+	if !ok {
+		return
+	}
+	step("#0: CONNECT clean=false accepted")
+	if !sub(a, []string{fq.Filter}, []byte{byte(s.QoSFirst)}) {
+		return
+	}
+	jit()
+	f2, q2 := []string{fq.Filter}, []byte{byte(s.QoSLast)}
+	var fx *exp
+	if s.WithNew {
+		fx = &exp{Filter: "s/x/+", Topic: "s/x/1", Held: true, QoS: 1, By: "connection #0, in the same SUBSCRIBE packet as the re-subscription"}
+		if rng.Intn(2) == 0 {
+			f2, q2 = append(f2, fx.Filter), append(q2, 1)
+		} else {
+			f2, q2 = []string{fx.Filter, fq.Filter}, []byte{1, byte(s.QoSLast)}
+		}
+	}
+	if !sub(a, f2, q2) {
+		return
+	}
+	model = append(model, fq)
+	if fx != nil {
+		model = append(model, fx)
+	}
+	// the live subscription must have taken the last QoS (topic manager: not this property; a
+	// case where it has not is not judged)
+	if okr, q := rb.routes(fq.Topic, cid); !okr || int(q) != s.QoSLast {
+		r.Count("resubscribe_other_qos:live_subscription_has_not_the_last_qos(schedule not established, not judged)", 1)
+		return
+	}
+	if pl, ok := inject(a, fq.Topic, s.QoSLast); !ok {
+		return
+	} else if pst := conns[a].ping(); pst != "ok" {
+		inc("old connection: PINGRESP " + pst)
+		return
+	} else if cnt, _ := conns[a].copies(pl); cnt == 0 {
+		r.Count("resubscribe_other_qos:live_delivery_with_the_last_qos_missed(schedule not established, not judged)", 1)
+		return
+	}
+	if pst := conns[a].ping(); pst != "ok" { // PUBACK processed
+		inc("old connection: PINGRESP " + pst)
+		return
+	}
+	r.Count("sanity_delivery_to_old_connection", 1)
+	if s.QoSLast == 1 {
+		r.Count("resubscribe_other_qos:0->1:live_subscription_delivered_qos1_before_the_end", 1)
+	}
+	if !settle() {
+		return
+	}
+	if tp, okp := rb.persistedTopics(cid); okp {
+		extraDetail["stored_copy_after_all_hand_overs_of_connection_0(not judged)"] = tp
+	}
+	var b int
+	if s.Via == "reconnect" {
+		if !endConn(a, s.End) {
+			return
+		}
+		jit()
+		wasRebuilt := rebuilt()
+		if b, ok = dial(false); !ok {
+			return
+		}
+		step("#1: CONNECT clean=false accepted (no live session, stored copy present: %v)", wasRebuilt)
+		if !subOwn(b) {
+			return
+		}
+		if !judge(b, "reconnect with cleanSession=false") {
+			return
+		}
+		if s.QoSLast == 1 {
+			r.Count("resubscribe_other_qos:0->1:restored_with_last_qos_and_qos1_delivered_after_reconnect", 1)
+		} else {
+			r.Count("resubscribe_other_qos:1->0:restored_with_last_qos_after_reconnect", 1)
+		}
+		r.Count("previous_subscription_restored", 1)
+	} else {
+		if s.End == "drop" {
+			conns[a].close()
+			step("#0: client vanished silently, the broker is not told")
+		}
+		step("#0: still open for the broker when the next CONNECT arrives")
+		jit()
+		if b, ok = dial(false); !ok {
+			return
+		}
+		step("#1: CONNECT clean=false accepted (takeover)")
+		if s.Point == 1 && !endConn(a, s.End) {
+			return
+		}
+		if !subOwn(b) {
+			return
+		}
+		if s.Point == 2 && !endConn(a, s.End) {
+			return
+		}
+		if !judge(b, "takeover with cleanSession=false") {
+			return
+		}
+		if s.Point == 3 {
+			if !endConn(a, s.End) {
+				return
+			}
+			if !judge(b, "after the teardown of the connection it superseded") {
+				return
+			}
+		}
+		r.Count("resubscribe_other_qos:"+dir+":restored_with_last_qos_"+map[bool]string{true: "and_qos1_delivered_", false: ""}[s.QoSLast == 1]+"after_takeover", 1)
+	}
+	// once more: this connection ends too and the next one is rebuilt from the stored copy
+	disown()
+	if !settle() {
+		return
+	}
+	if !endConn(b, []string{"disconnect", "drop"}[rng.Intn(2)]) {
+		return
+	}
+	jit()
+	wasRebuilt := rebuilt()
+	c, ok := dial(false)
+	if !ok {
+		return
+	}
+	step("#2: CONNECT clean=false accepted (no live session, stored copy present: %v)", wasRebuilt)
+	if !subOwn(c) {
+		return
+	}
+	if !judge(c, "second reconnect with cleanSession=false") {
+		return
+	}
+	if wasRebuilt {
+		r.Count("resubscribe_other_qos:restored_with_last_qos_when_rebuilt_from_stored_copy_once_more", 1)
+	}
+	if first && s.Via == "takeover" && s.QoSFirst == 0 {
 		r.Sample(map[string]interface{}{"scenario": s, "steps": steps})
 	}
 }
